@@ -169,10 +169,124 @@ func TestVerifC11(t *testing.T) {
 	}
 	userPemBlock, _ := pem.Decode([]byte(testUserPEMPublicKey))
 	b64public := base64.RawURLEncoding.EncodeToString(userPemBlock.Bytes)
+	onCfg := false
+	// one certificate, presented from one address: what checkAuth(AuthTypeAny) says, and the two endpoints
+	present := func(leaf *x509.Certificate, chainLen string, from string) string {
+		chain := []*x509.Certificate{leaf}
+		if chainLen == "2" {
+			chain = append(chain, caCert)
+		}
+		cs := &tls.ConnectionState{VerifiedChains: [][]*x509.Certificate{chain}, PeerCertificates: []*x509.Certificate{leaf}}
+		user := "none"
+		req3, _ := http.NewRequest("GET", "/profile/", nil)
+		req3.RemoteAddr = from
+		req3.TLS = cs
+		if _, p3 := vfServe(func(w http.ResponseWriter, r *http.Request) {
+			if ad, err := state.checkAuth(w, r, AuthTypeAny); err == nil && ad != nil {
+				user = vfHex(ad.Username)
+			}
+		}, req3); p3 != nil {
+			user = "PANIC"
+		}
+		form := url.Values{}
+		form.Add("pubkey", b64public)
+		req, _ := http.NewRequest("POST", refreshRoleRequestingCertPath, strings.NewReader(form.Encode()))
+		req.Header.Add("Content-Length", strconv.Itoa(len(form.Encode())))
+		req.Header.Add("Content-Type", "application/x-www-form-urlencoded")
+		req.RemoteAddr = from
+		req.TLS = cs
+		r1 := "PANIC"
+		if rr, p := vfServe(state.refreshRoleRequestingCertGenHandler, req); p == nil {
+			r1 = strconv.Itoa(rr.Code)
+		}
+		req2, err := createKeyBodyRequest("POST", "/certgen/"+leaf.Subject.CommonName+"?type=x509", testUserPEMPublicKey, "")
+		if err != nil {
+			t.Fatal(err)
+		}
+		req2.RemoteAddr = from
+		req2.TLS = cs
+		r2 := "PANIC"
+		if rr, p := vfServe(state.certGenHandler, req2); p == nil {
+			r2 = strconv.Itoa(rr.Code)
+		}
+		return vfPeerClass(from) + "~" + user + "~" + r1 + "/" + r2
+	}
+	presentAll := func(leaf *x509.Certificate, chainLen string, hexAddrs string) string {
+		var out []string
+		for _, ph := range strings.Split(hexAddrs, ";") {
+			pa, ok := vfUnhex(ph)
+			if !ok {
+				pa = "bad-hex"
+			}
+			out = append(out, present(leaf, chainLen, pa))
+		}
+		return strings.Join(out, ",")
+	}
 	for _, line := range io.ops {
 		f := strings.Fields(line)
 		switch {
+		case len(f) == 2 && f[0] == "usecfg":
+			// from here on: a state the real loader read from a configuration file (baseline automation settings), with the
+			// configuration keys named in the hex JSON — options the pinned list does not know — switched on
+			js, ok := vfUnhex(f[1])
+			if !ok {
+				io.emit("bad-op")
+				continue
+			}
+			st, rep, err := vfLoadWithNewOptions(t, js)
+			if err != nil {
+				io.emit("load-error %s", strings.Join(strings.Fields(err.Error()), "_"))
+				continue
+			}
+			cc, err := x509.ParseCertificate(st.selfRoleCaCertDer)
+			if err != nil {
+				io.emit("load-error %v", err)
+				continue
+			}
+			state, caCert, onCfg = st, cc, true
+			io.emit("cfg %s", rep)
+		case len(f) == 5 && f[0] == "seq":
+			// seq <chain 1|2> <cidrs> <env> <hexaddr;hexaddr;…>: ONE certificate, presented from each address in turn
+			if (f[1] != "1" && f[1] != "2") || len(f[3]) != 3 || (onCfg && f[3] != "010") {
+				io.emit("bad-op")
+				continue
+			}
+			var nets []net.IPNet
+			bad := false
+			for _, s := range strings.Split(f[2], ",") {
+				_, n, err := net.ParseCIDR(s)
+				if err != nil {
+					bad = true
+					break
+				}
+				nets = append(nets, *n)
+			}
+			if bad {
+				io.emit("bad-op")
+				continue
+			}
+			params := roleRequestingCertGenParams{Role: "role1", Duration: time.Hour, RequestorNetblocks: nets, UserPub: userPub}
+			_, leaf, err := state.withParamsGenerateRoleRequestingCert(&params)
+			if err != nil {
+				io.emit("minterr")
+				continue
+			}
+			if !onCfg {
+				state.Config.DenyTrustData.KeyDenyFPsshSha256 = nil
+				if f[3][0] == '1' {
+					state.Config.DenyTrustData.KeyDenyFPsshSha256 = []string{userFP}
+				}
+				state.Config.Base.AutomationUsers = nil
+				if f[3][1] == '1' {
+					state.Config.Base.AutomationUsers = []string{"role1", "role2"}
+				}
+			}
+			io.emit("seq=%s", presentAll(leaf, f[1], f[4]))
 		case (len(f) == 6 || len(f) == 8) && f[0] == "ref":
+			if onCfg && f[5] != "010" {
+				io.emit("bad-op")
+				continue
+			}
 			addr, ok := vfUnhex(f[4])
 			if !ok || len(f[5]) != 3 || (f[1] != "1" && f[1] != "2") {
 				io.emit("bad-op")
@@ -261,13 +375,15 @@ func TestVerifC11(t *testing.T) {
 			cs := &tls.ConnectionState{VerifiedChains: [][]*x509.Certificate{chain},
 				PeerCertificates: []*x509.Certificate{leaf}}
 			// environment of getUsernameIfIPRestricted
-			state.Config.DenyTrustData.KeyDenyFPsshSha256 = nil
-			if f[5][0] == '1' {
-				state.Config.DenyTrustData.KeyDenyFPsshSha256 = []string{userFP}
-			}
-			state.Config.Base.AutomationUsers = nil
-			if f[5][1] == '1' {
-				state.Config.Base.AutomationUsers = []string{"role1", "role2"}
+			if !onCfg {
+				state.Config.DenyTrustData.KeyDenyFPsshSha256 = nil
+				if f[5][0] == '1' {
+					state.Config.DenyTrustData.KeyDenyFPsshSha256 = []string{userFP}
+				}
+				state.Config.Base.AutomationUsers = nil
+				if f[5][1] == '1' {
+					state.Config.Base.AutomationUsers = []string{"role1", "role2"}
+				}
 			}
 			// refresh
 			// keys "H:<name>" of the extra parameters are request headers (X-Forwarded-For …), the rest form values
@@ -384,13 +500,16 @@ func TestVerifC11(t *testing.T) {
 				}
 			}
 			io.emit("peer=%s refresh=%s certgen=%s%s%s", vfPeerClass(addr), strings.ReplaceAll(refresh, " ", "|"), strings.ReplaceAll(cg, " ", "|"), parse, use)
-		case len(f) == 2 && f[0] == "get":
+		case (len(f) == 2 || len(f) == 3) && f[0] == "get":
 			cidrs, ok := vfUnhex(f[1])
 			if !ok {
 				io.emit("bad-op")
 				continue
 			}
-			state.Config.Base.AutomationUsers = []string{"role1"}
+			if !onCfg {
+				state.Config.Base.AutomationUsers = []string{"role1"}
+				state.Config.DenyTrustData.KeyDenyFPsshSha256 = nil
+			}
 			form := url.Values{}
 			form.Add("identity", "role1")
 			for _, c := range strings.Split(cidrs, ",") {
@@ -407,7 +526,16 @@ func TestVerifC11(t *testing.T) {
 				io.emit("status=PANIC")
 				continue
 			}
-			io.emit("get=%s", strings.ReplaceAll(vfIssued(rr, rr.Code, rr.Body.Bytes(), userPub), " ", "|"))
+			// whatever was minted is then USED (with its issuer) from the given addresses
+			use := ""
+			if rr.Code == 200 && len(f) == 3 {
+				if block, _ := pem.Decode(rr.Body.Bytes()); block != nil {
+					if minted, err := x509.ParseCertificate(block.Bytes); err == nil {
+						use = " use=" + presentAll(minted, "2", f[2])
+					}
+				}
+			}
+			io.emit("get=%s%s", strings.ReplaceAll(vfIssued(rr, rr.Code, rr.Body.Bytes(), userPub), " ", "|"), use)
 		default:
 			io.emit("bad-op")
 		}
